@@ -50,6 +50,7 @@ class Run:
         s.log_lines = []
         s.paths = None
         s.pool = None
+        s.pool_std = None
         s.world = None
         s.evidence = {
             'property_id': pid, 'tier': tier, 'seed': seed, 'level': 'model_checking',
@@ -96,10 +97,19 @@ class Run:
             raise Inconclusive(f'translator validation failed on {len(mism)} of {n} concrete cases (encoding does not match the real code)')
         s.log(f'[translator] {n} concrete cases: real code and mirsym agree ({time.time() - t0:.1f}s)')
 
-    def explore(s, name, spec, seconds, required=True, **kw):
-        """run one exploration; returns stats (records included)"""
+    def explore(s, name, spec, seconds, required=True, std=False, **kw):
+        """run one exploration; returns stats (records included).  std=True: on the MIR of the std-feature build"""
         deadline = time.time() + seconds
-        st = s.pool.explore(spec, deadline, **kw)
+        pool = s.pool
+        if std:
+            if s.pool_std is None:
+                try:
+                    s.paths = build.ensure(log=s.log, std=True)
+                except build.BuildError as e:
+                    raise Inconclusive('the std-feature build failed: ' + str(e))
+                s.pool_std = explore.Pool(dict(s.paths, mir_micro=s.paths['mir_micro_std']), os.path.join(REPO, 'microscpi', 'src'), workers=8)
+            pool = s.pool_std
+        st = pool.explore(spec, deadline, **kw)
         cov = s.evidence['coverage']
         cov['states'] += st['paths']
         cov['transitions'] += st['transitions']
@@ -150,8 +160,8 @@ class Run:
         for f in glob.glob(os.path.join(d, '*.smt2')):
             os.remove(f)
 
-    def native(s, cases, release=False):
-        b = s.paths['vreplay_release'] if release else s.paths['vreplay']
+    def native(s, cases, release=False, std=False):
+        b = s.paths['vreplay_std'] if std else (s.paths['vreplay_release'] if release else s.paths['vreplay'])
         raw = run_native(cases, b)
         s.evidence['coverage']['traces_validated_against_impl'] += len(cases)
         return [native_obs(js, c) for js, c in zip(raw, cases)]
@@ -169,6 +179,8 @@ class Run:
             json.dump(s.evidence, f, indent=1, default=str)
         if s.pool:
             s.pool.close()
+        if s.pool_std:
+            s.pool_std.close()
 
     def write_replay(s, violation):
         d = os.path.join(OUT, 'replays', s.pid)
